@@ -20,6 +20,9 @@ RULE = (
     'A case = one load whose every halo slice and every subsample column is compared. non-trivial = distinct (tree, configuration) where the tree has >=2 superslabs, an L0 gap, '
     'a cleaned-away halo and a merged range'
 )
+RULE += (
+    ' Added after seeded round 9: light-cone trees whose halo rows are not in particle-file order, loaded through four filters; header ppd stored as NP**(1/3.) in every third tree.'
+)
 ASSUMPTIONS = [
     'float32 pos/vel within 1 ulp of the reference decoding; integer fields exact; lagr_pos within 4 ulp(BoxSize)',
     'a load that raises yields no catalogue: recorded under load_errors (C02/C03 own "must not fail"); fewer than 80% successful loads makes the run inconclusive',
